@@ -1710,26 +1710,28 @@ CONSTANT weight `w` (uniformly discretized spaces: the cell volume): the coded a
 `⟨Ax, y⟩ = ⟨x, A*y⟩` in the space's own weighted, sesquilinear inner product, for every
 method, every pad mode and every axis length the code accepts (`sizeCheck = none`).
 NOT covered: `nodes_on_bdry` discretizations (non-constant weights: open finding F60). -/
-theorem C05.partial_deriv_adj (cj : K →+* K) (I : K) (S : Space K)
+theorem C05.partial_deriv_adj (cj : K →+* K) (I : K) (D R : Space K)
     (p n q : Nat) (me : Method) (pa : Pad) (dx w : K)
-    (hS : S.m = 1) (hSn : S.n 0 = p * (n * q)) (hW : ∀ i, S.W 0 i = w) (hdx : cj dx = dx)
+    (hD : D.m = 1) (hR : R.m = 1) (hDn : D.n 0 = p * (n * q)) (hRn : R.n 0 = p * (n * q))
+    (hDW : ∀ i, D.W 0 i = w) (hRW : ∀ i, R.W 0 i = w) (hreal : R.real = D.real)
+    (hdx : cj dx = dx)
     (h : sizeCheck guards (tbl me pa) pa n = none)
     (h' : sizeCheck guards (tbl (adjMethod me) (adjPad pa)) (adjPad pa) n = none) :
-    (Leaf.partialDeriv S n q me pa dx).WT cj I := by
+    (Leaf.partialDeriv D R n q me pa dx).WT cj I := by
   have hn : 2 ≤ n := le_trans (tbl me pa).two_le_need (sizeCheck_none h)
   have hc : ∀ (t : Table) (y : El K) (j o : Nat), cj (axisRun n n q (fd den t n 0 dx) y j o) =
       axisRun n n q (fd den t n 0 dx) (fun j i => cj (y j i)) j o := by
     intro t y j o
     simp only [axisRun, fd_conj cj t n hn, hdx]
-  show Pair cj (false = true) S S _ _
+  show Pair cj (false = true) D R _ _
   refine ⟨?_, ?_, ?_⟩
   · intro x hx hr j o
-    rw [hc]; congr 1; funext j i; exact hx hr j i
+    rw [hc]; congr 1; funext j i; exact hx (hreal ▸ hr) j i
   · intro y hy hr j o
-    rw [map_neg, hc]; congr 2; funext j i; exact hy hr j i
+    rw [map_neg, hc]; congr 2; funext j i; exact hy (hreal ▸ hr) j i
   · intro φ _ x y _ _
     congr 1
-    simp only [dot_eq, hS, sum_range_one, hSn, hW, map_neg, hc]
+    simp only [dot_eq, hD, hR, sum_range_one, hDn, hRn, hDW, hRW, map_neg, hc]
     exact axis_dot p n n q _ (fun g k => -(fd den (tbl (adjMethod me) (adjPad pa)) n 0 dx g k))
       (fun f g => C05.fd_transpose me pa n h h' dx f g) w x (fun j i => cj (y j i))
 
@@ -1738,14 +1740,72 @@ method='central', pad_mode='order2_adjoint')` (p = 1, n = 3, q = 4, cell volume 
 its contract, hence the tree `3·∂₀ + ∂₀` is covered by `adj_sound` with no leaf hypothesis. -/
 example :
     let S : Space ℚ := ⟨1, fun _ => 12, fun _ _ => 1 / 4, true⟩
-    let l : Leaf ℚ := Leaf.partialDeriv S 3 4 .central .order2Adj (1 / 2)
+    let l : Leaf ℚ := Leaf.partialDeriv S S 3 4 .central .order2Adj (1 / 2)
     let t : Impl ℚ := .sum (.lscal (.leaf l) 3) (.leaf l)
     t.WT (RingHom.id ℚ) 0 ∧ (t.adj (RingHom.id ℚ) 0).isSome = true := by
   intro S l t
   have hl : l.WT (RingHom.id ℚ) 0 :=
-    C05.partial_deriv_adj (RingHom.id ℚ) 0 S 1 3 4 .central .order2Adj (1 / 2) (1 / 4)
-      rfl rfl (fun _ => rfl) rfl (by decide) (by decide)
+    C05.partial_deriv_adj (RingHom.id ℚ) 0 S S 1 3 4 .central .order2Adj (1 / 2) (1 / 4)
+      rfl rfl rfl rfl (fun _ => rfl) (fun _ => rfl) rfl rfl (by decide) (by decide)
   exact ⟨⟨⟨hl, fun _ => rfl, fun _ => rfl⟩, hl, rfl, rfl⟩, rfl⟩
+
+
+/-- Gradient(S, method, pad_mode) : S → V = S^d and Divergence(V → S, method, pad_mode) on a
+uniformly discretized space of ANY ndim `d` and shape, range / domain the UNWEIGHTED power space
+(every block carries the constant weight `w` of `S`): the block column / block row of the `d`
+partial derivatives (`gradTree`, `divTree` — executed by the driver and compared exactly with
+`Gradient` / `Divergence` of the real code on the streams `model/gradient`, `model/divergence`)
+is a well-formed tree ALL of whose leaf contracts are proved; so by `adj_sound` its model
+adjoint (block transposition of `-∂ₐ'`, acting like the coded `-Divergence(_ADJ_METHOD,
+_ADJ_PADDING)` resp. `-Gradient(…)`) satisfies `⟨Ax, y⟩ = ⟨x, A*y⟩`, for every method, pad mode
+and admissible shape.  NOT covered: weighted power spaces (open finding F56), `nodes_on_bdry`
+(F60). -/
+theorem C05.gradient_adj (cj : K →+* K) (I : K) (S V : Space K) (sh : List Nat)
+    (me : Method) (pa : Pad) (dx : Nat → K) (w : K) (d : Nat)
+    (hd : d ≤ V.m) (hSm : 0 < S.m) (hlen : d ≤ sh.length)
+    (hSn : S.n 0 = shProd sh) (hVn : ∀ a < d, V.n a = shProd sh)
+    (hSW : ∀ i, S.W 0 i = w) (hVW : ∀ a < d, ∀ i, V.W a i = w) (hreal : V.real = S.real)
+    (hdx : ∀ a < d, cj (dx a) = dx a)
+    (h : ∀ a < d, sizeCheck guards (tbl me pa) pa (sh.getD a 0) = none)
+    (h' : ∀ a < d, sizeCheck guards (tbl (adjMethod me) (adjPad pa)) (adjPad pa) (sh.getD a 0) = none) :
+    (gradTree S V sh me pa dx d).WT cj I ∧ (divTree V S sh me pa dx d).WT cj I := by
+  induction d with
+  | zero => exact ⟨trivial, trivial⟩
+  | succ a ih =>
+    have ih' := ih (by omega) (by omega) (fun b hb => hVn b (by omega))
+      (fun b hb => hVW b (by omega)) (fun b hb => hdx b (by omega))
+      (fun b hb => h b (by omega)) (fun b hb => h' b (by omega))
+    have hs := shProd_split sh a (by omega)
+    obtain ⟨g1, g2, g3⟩ := gradTree_shape S V sh me pa dx a
+    obtain ⟨d1, d2, d3⟩ := divTree_shape V S sh me pa dx a
+    refine ⟨⟨?_, ih'.1, g3, by rw [g2]; omega, by rw [g1]; exact hSm, by rw [g1]; rfl, by rw [g2]; rfl⟩,
+      ⟨?_, ih'.2, d3, by rw [d2]; exact hSm, by rw [d1]; omega, by rw [d1]; rfl, by rw [d2]; rfl⟩⟩
+    · exact C05.partial_deriv_adj cj I (S.comp 0) (V.comp a) (shProd (sh.take a)) _ _ me pa (dx a) w
+        rfl rfl (by simp only [Space.comp]; rw [hSn, hs]) (by simp only [Space.comp]; rw [hVn a (by omega), hs])
+        (fun i => hSW i) (fun i => hVW a (by omega) i) hreal (hdx a (by omega))
+        (h a (by omega)) (h' a (by omega))
+    · exact C05.partial_deriv_adj cj I (V.comp a) (S.comp 0) (shProd (sh.take a)) _ _ me pa (dx a) w
+        rfl rfl (by simp only [Space.comp]; rw [hVn a (by omega), hs]) (by simp only [Space.comp]; rw [hSn, hs])
+        (fun i => hVW a (by omega) i) (fun i => hSW i) hreal.symm (hdx a (by omega))
+        (h a (by omega)) (h' a (by omega))
+
+/-- Non-vacuity and use: Gradient / Divergence on `uniform_discr([0,0],[1.5,2],(3,4))` (cell
+volume 1/4), method `forward`, pad mode `symmetric`: both trees are well formed, so
+`adj_identity` applies to them with no hypothesis left. -/
+example :
+    let S : Space ℚ := ⟨1, fun _ => 12, fun _ _ => 1 / 4, true⟩
+    let V : Space ℚ := ⟨2, fun _ => 12, fun _ _ => 1 / 4, true⟩
+    (gradTree S V [3, 4] .forward .symmetric (fun _ => 1 / 2) 2).WT (RingHom.id ℚ) 0 ∧
+      (divTree V S [3, 4] .forward .symmetric (fun _ => 1 / 2) 2).WT (RingHom.id ℚ) 0 ∧
+      ((gradTree S V [3, 4] .forward .symmetric (fun _ => (1 / 2 : ℚ)) 2).adj
+        (RingHom.id ℚ) 0).isSome = true := by
+  intro S V
+  have h := C05.gradient_adj (RingHom.id ℚ) 0 S V [3, 4] .forward .symmetric (fun _ => 1 / 2)
+    (1 / 4) 2 (le_refl 2) (by decide) (le_refl 2) rfl (fun _ _ => rfl) (fun _ => rfl)
+    (fun _ _ _ => rfl) rfl (fun _ _ => rfl)
+    (fun a ha => match a, ha with | 0, _ => by decide | 1, _ => by decide)
+    (fun a ha => match a, ha with | 0, _ => by decide | 1, _ => by decide)
+  exact ⟨h.1, h.2, rfl⟩
 
 end
 
